@@ -41,6 +41,22 @@ CHECKS = {
             'Trusted: the printer in vlib/bql.py (mirrors the grammar rule by rule), TatSu (used by both parsers). '
             'Regenerating parser.py from the grammar and comparing bytes is reported as a supplement only.',
             'DESIGN.md section 4, C06'),
+    'C07': ('Hypothesis statement generation with random layout; executable naming oracle (verbatim substring that parses back to the target expression) + reference model for values; wildcard expansion vs declared columns / inner description',
+            'Generated SELECTs with aliased, bare-column and expression targets, duplicate names and hidden GROUP BY / '
+            'HAVING / ORDER BY helpers, printed with random whitespace, comments, parentheses and case and executed from '
+            'text: description length, row lengths, names by rule and all values are checked; `*` is checked on harness '
+            'tables, the default table, nested subqueries (after an unrelated subquery ran in the same process) and every '
+            'Beancount-backed table of a sample ledger.',
+            'Trusted: vlib/bql.py printer, beanquery.parser for parsing names back (C06 covers the parser), vlib/refmodel.py.',
+            'DESIGN.md section 4, C07'),
+    'C08': ('Hypothesis generation of nested queries; metamorphic materialisation oracle (inner result registered as a table) + reference model; IN-subquery vs model with inner table different from outer',
+            'Chains table -> inner query (-> inner query) -> outer query are executed as FROM-subqueries and, metamorphically, '
+            'over a harness table holding the inner result (same rows, names and datatypes required), and compared with the '
+            'reference model; SELECT * FROM (q) must equal q. IN / NOT IN subqueries are generated in targets and WHERE with '
+            'inner tables different from the outer one, empty results and NULL operands.',
+            'Trusted: vlib/refmodel.py; harness tables. Inner output names are unique by construction (duplicate names are a '
+            'recorded known finding).',
+            'DESIGN.md section 4, C08'),
     'C10': ('Hypothesis-generated cursor call histories vs list-and-position model (model-based/stateful PBT)',
             'Bounded random exploration of cursor call histories (result sizes 0..12, <=30 operations, several '
             'cursors per connection) against an executable model of the DB-API protocol; every description entry '
